@@ -21,6 +21,8 @@ def run(ctx):
         vlib.validate_traces(ctx, "Trace_ChanParser.tla", "Trace_ChanParser.cfg", tr, "chan-trace-rejected", "parser/parser.go")
         ctx.add("evaluations", res["runs"])
         ctx.cov["race_detector_runs"] = res["runs"]
+    if ctx.tier == "thorough":
+        vlib.vacuity_check(ctx, "ChanParser.tla", "MC_ChanParser.cfg", expect_zero=('ResendErr', 'PResendTaken'))
     return vlib.finish(
         ctx, "model_checking",
         rule="ChanParser.tla: every scenario of <= 4 callback events x {nil, callback error, read error} x {stream, file, unreadable path} x "
